@@ -501,6 +501,25 @@ func goInvocation(r c24TagReq) (want byte, hook bool, parsed bool) {
 	return '1', hook, parsed
 }
 
+// c24ParsedAs: the daemon's tag parser alone attributes the tag to the
+// invocation's instance and component (no validator consulted).
+func c24ParsedAs(r c24TagReq) bool {
+	st, err := naming.ParseSecurityTag(r.Tag)
+	if err != nil || st.InstanceName() != r.Inst {
+		return false
+	}
+	tagComp := ""
+	if h, ok := st.(naming.HookSecurityTag); ok {
+		tagComp = h.ComponentName()
+	}
+	if r.SC == nil {
+		return tagComp == ""
+	}
+	sn, comp, ok := strings.Cut(*r.SC, "+")
+	instSnap, _, _ := strings.Cut(r.Inst, "_")
+	return ok && sn == instSnap && comp != "" && comp == tagComp
+}
+
 type c24TagObs struct {
 	accepted  bool // some side lets the invocation pass
 	overLimit bool
@@ -526,6 +545,14 @@ func judgeTag(r c24TagReq, ans string) (c24TagObs, error) {
 			}
 		}
 		return o, nil
+	}
+	if got != '1' && c24ParsedAs(r) {
+		// "snap-confine accepts a security tag for a given instance (and
+		// component) exactly when the daemon parses it as belonging to that
+		// instance (and component)": judged on what the daemon's parser
+		// reports, whatever the name validators say about the context
+		return o, verifkit.Violatef("tag %q (len %d): the daemon parses it as belonging to instance %q component %s, snap-confine does not accept it for them (verdict %c)",
+			r.Tag, len(r.Tag), r.Inst, c24ptr(r.SC), got)
 	}
 	if got != want {
 		what := map[byte]string{'i': "instance name rejected", 'c': "snap+component rejected", '0': "tag rejected", '1': "tag accepted"}
@@ -823,6 +850,13 @@ var c24BaseTags = [][]string{
 	{"snap", ".", "1", "ab", ".", "hook", ".", "ab"},
 }
 
+var c24NearTags = [][]string{
+	{"snap", ".", "ab", "+", "ab", "_", "1", ".", "hook", ".", "ab"},
+	{"snap", ".", "ab", "_", "1", "+", "ab", "_", "1", ".", "hook", ".", "ab"},
+	{"snap", ".", "ab", "+", "ab", "+", "ab", ".", "hook", ".", "ab"},
+	{"snap", ".", "ab", "+", "1", ".", "hook", ".", "ab"},
+}
+
 func c24SC(inst, comp string) *string {
 	sn, _, _ := strings.Cut(inst, "_")
 	s := sn + "+" + comp
@@ -855,6 +889,11 @@ func c24Contexts(tag string, rich bool) []c24TagReq {
 	} else {
 		add(inst, nil)
 		add(inst, c24SC(inst, "ab"))
+		if has && comp != "" {
+			// the context the tag spells out, although the daemon's
+			// validators reject the component name
+			add(inst, c24SC(inst, comp))
+		}
 	}
 	var insts []string
 	if len(inst) > 2 {
@@ -1018,6 +1057,12 @@ func TestVerifC24Tags(t *testing.T) {
 				c24Edits(x, func(y []string) { addTag(join(y)) })
 			}
 		})
+	}
+	// (c') edit neighbourhoods of near misses: component names that carry
+	// what only an instance name may carry
+	for _, base := range c24NearTags {
+		addTag(join(base))
+		c24Edits(base, func(x []string) { addTag(join(x)) })
 	}
 	// (d) byte sweep over well formed tags
 	for _, base := range c24BaseTags {
